@@ -96,9 +96,9 @@ def run(chk):
             quick = chk.tier == "quick"
             corpus = [cc.parse_line(l) for l in pure.corpus_cases("C06")]
             streams = [("corpus", corpus)]
-            nb = 14 if quick else 200
+            nb = 40 if quick else 400
             streams.append(("bursts", [burst_script(chk.rng, trials=20 if quick else 50) for _ in range(nb)]))
-            streams.append(("bursts-parallel1-queue1", [burst_script(chk.rng, par=1, jcs=1, trials=20 if quick else 50) for _ in range(6 if quick else 80)]))
+            streams.append(("bursts-parallel1-queue1", [burst_script(chk.rng, par=1, jcs=1, trials=20 if quick else 50) for _ in range(20 if quick else 200)]))
             small_scripts = []
             for _ in range(4 if quick else 30):
                 sc = burst_script(chk.rng, par=chk.rng.choice([1, 1, 2]), jcs=1, extra=1, trials=20)
